@@ -52,6 +52,10 @@ class Crash(Exception):
     """Raised by generated user code at an enumerated crash point; never caught by generated code."""
 
 
+class CrashBase(BaseException):
+    """A crash that is not an ``Exception`` (like KeyboardInterrupt or SystemExit reaching the build)."""
+
+
 def jsonrt(v):
     return json.loads(json.dumps(v))
 
